@@ -8,7 +8,9 @@ G14_noUnauthenticatedSuccess(e) == e.res = "ok" => Expected(e)
 \* ... and what each flag waives really is waived
 \* (whether a self-signed server certificate added as a root is usable as a trust anchor differs between TLS
 \* libraries: for those rows only the first direction is judged)
-G14_waiverHonoured(e) == (Expected(e) /\ ~e.rootIsLeaf) => e.res = "ok"
+G14_waiverHonoured(e) == (Expected(e) /\ ~e.rootIsLeaf /\ e.pop) => e.res = "ok"
+\* a replayed certificate without its key is refused unless certificate checks are waived altogether
+G14_possessionProved(e) == PopOK(e.pop, [certs |-> e.certs, hosts |-> e.hosts, root |-> e.root, rootIsLeaf |-> e.rootIsLeaf], e.scope, e.res)
 TraceInit == l = 1
 TraceNext ==
   /\ l <= Len(Rec)
@@ -16,6 +18,7 @@ TraceNext ==
   /\ LET e == Rec[l] IN
      /\ (~G14_noUnauthenticatedSuccess(e)) => Viol(l, e.id, "C14", "G14_noUnauthenticatedSuccess", e.backend)
      /\ (~G14_waiverHonoured(e)) => Viol(l, e.id, "C14", "G14_waiverHonoured", e.backend \o " " \o e.kind)
+     /\ (~G14_possessionProved(e)) => Viol(l, e.id, "C14", "G14_possessionProved", e.backend \o " " \o e.tlsver)
 TraceSpec == TraceInit /\ [][TraceNext]_l
 TraceAccepted ==
   LET d == TLCGet("stats").diameter IN
